@@ -170,7 +170,7 @@ def model_vec(v):
 
 CYC_BANDS = (8, 16, 32, 64)       # cycles per record: [4,8) [8,16) [16,32) [32,64) [64,inf)
 SPC_BANDS = (16, 24, 48, 96)      # samples per cycle: [12,16) [16,24) [24,48) [48,96) [96,inf)
-STATS = ('maxF', 'maxA', 'maxP', 'medF', 'medA', 'medP')
+STATS = ('meanF', 'medF', 'maxF', 'medA', 'maxA', 'meanP', 'medP', 'maxP')
 
 
 def band(v, bs):
@@ -181,25 +181,36 @@ def band(v, bs):
 
 
 def recovery_stats(ip, iff, ia, f, a, ph, sr):
-    """Relative frequency / amplitude error and circular phase error (rad) on the interior 80 %."""
+    """Errors on the interior 80 % of the record: relative frequency error (of the mean, median, max),
+    relative amplitude error (median, max), circular phase error in rad (|circular mean|, median, max)."""
     n = len(ip)
     lo, hi = int(0.1 * n), int(0.9 * n)
     t = np.arange(n) / sr
     th = 2 * np.pi * f * t + ph
-    rf = np.abs(np.asarray(iff)[lo:hi] - f) / f
-    ra = np.abs(np.asarray(ia)[lo:hi] - a) / a
-    dp = circ(np.asarray(ip)[lo:hi] - th[lo:hi])
-    return {'maxF': float(rf.max()), 'maxA': float(ra.max()), 'maxP': float(dp.max()),
-            'medF': float(np.median(rf)), 'medA': float(np.median(ra)), 'medP': float(np.median(dp))}
+    iff = np.asarray(iff, dtype=float)[lo:hi]
+    rf = np.abs(iff - f) / f
+    ra = np.abs(np.asarray(ia, dtype=float)[lo:hi] - a) / a
+    d = (np.asarray(ip, dtype=float)[lo:hi] - th[lo:hi] + np.pi) % (2 * np.pi) - np.pi      # signed, in [-pi, pi)
+    dp = np.abs(d)
+    meanp = abs(float(np.angle(np.mean(np.exp(1j * d)))))
+    return {'meanF': float(abs(np.mean(iff) - f) / f), 'medF': float(np.median(rf)), 'maxF': float(rf.max()),
+            'medA': float(np.median(ra)), 'maxA': float(ra.max()),
+            'meanP': meanp, 'medP': float(np.median(dp)), 'maxP': float(dp.max())}
 
 
-# Worst errors measured on the clean tree (props/_phase_table.py, written by c09.calibrate: 40,000 sinusoid
-# records, seeds 1-8), per method x cycles-per-record band x samples-per-cycle band, for the six statistics
-# (max / median over the interior 80 % of relative frequency error, relative amplitude error,
-# circular phase error in rad).  The check allows MARGIN x these values.  None = cell not reachable
-# with the generator (n >= 512), falls back to the worst of the method.
+# Worst errors measured on the clean tree (props/_phase_table.py, written by scratch calibration from
+# c09.calibrate: 40,000 random sinusoid records (seeds 1-8) plus phase sweeps at resonant samples-per-cycle
+# values j/2, j/3, j/4 - where the quadrature method has systematic errors), per method x
+# cycles-per-record band x samples-per-cycle band.  The check allows MARGIN x these values.
+# None / missing cell = not reachable with the generator (n >= 512): falls back to the worst of the method.
+# The quadrature method has systematic, phase-dependent pointwise errors when the samples-per-cycle value is (close to)
+# a small rational: the instantaneous frequency then takes a few distinct values per cycle and its *median* jumps between
+# clusters (measured 0.24 at 12, 14, 16 samples per cycle for particular start phases, 0.03 otherwise).  For quad the
+# median statistics are therefore not checked separately (they are bounded by the max statistics); mean frequency, mean
+# phase and amplitude are stable and tight for all three methods.
+CHECKED = {'hilbert': STATS, 'nht': STATS, 'quad': tuple(s for s in STATS if s not in ('medF', 'medP'))}
 MARGIN = 3.0
-FLOOR = {'maxF': 3e-3, 'maxA': 3e-3, 'maxP': 3e-3, 'medF': 1e-3, 'medA': 1e-3, 'medP': 1e-3}
+FLOOR = {'meanF': 1e-3, 'medF': 1e-3, 'maxF': 3e-3, 'medA': 1e-3, 'maxA': 3e-3, 'meanP': 1e-3, 'medP': 1e-3, 'maxP': 3e-3}
 WORST = {}   # filled in below by _load_table()
 
 
